@@ -52,7 +52,7 @@ theorem forall2_length {α β : Type} {R : α → β → Prop} {l₁ : List α} 
 /-- afterwards `ByKeyAndIPRanges` finds the new addresses in request order -/
 theorem byKeyAndRanges_after {s' : State} {key : String} {ranges : List (List Range)} {ips : List IP} (hr : ranges ≠ [])
     (hlen : ips.length = ranges.length)
-    (hin : ∀ i (h1 : i < ips.length) (h2 : i < ranges.length), ips[i] ∈ walk ranges[i])
+    (hin : ∀ i (h1 : i < ips.length) (h2 : i < ranges.length), ips[i] ∈ walkConfigured s'.pools ranges[i])
     (hdis : DisjointRanges ranges)
     (hkey : ∀ i (hi : i < ranges.length) x, x ∈ walk ranges[i] → (hasKey s' key x = true ↔ x ∈ ips)) :
     byKeyAndRanges s' key ranges = ips.map some := by
@@ -67,15 +67,16 @@ theorem byKeyAndRanges_after {s' : State} {key : String} {ranges : List (List Ra
       have hi2 : i < (rs :: rest).length := by simpa using h1
       have hi1 : i < ips.length := by simpa using h2
       apply find?_unique (hin i hi1 hi2)
-      · exact (hkey i hi2 _ (hin i hi1 hi2)).mpr (List.getElem_mem _)
-      · intro x hx hp
+      · exact (hkey i hi2 _ (mem_walk_of_walkConfigured (hin i hi1 hi2))).mpr (List.getElem_mem _)
+      · intro x hx' hp
+        have hx := mem_walk_of_walkConfigured hx'
         have hxin := (hkey i hi2 x hx).mp hp
         obtain ⟨k, hk, hkx⟩ := List.getElem_of_mem hxin
         have hk2 : k < (rs :: rest).length := by rw [← hlen]; exact hk
         by_cases hki : k = i
         · subst hki; exact hkx.symm
         · exfalso
-          have h3 := hin k hk hk2
+          have h3 := mem_walk_of_walkConfigured (hin k hk hk2)
           rw [hkx] at h3
           exact hdis i k hi2 hk2 (fun e => hki e.symm) x hx h3
 
@@ -415,7 +416,7 @@ theorem multi_alloc_success' {s : State} {key subnet : String} {ranges : List (L
   refine ⟨hlen, ?_, h.nodup, ?_, ?_, ?_⟩
   · intro i h1 h2
     have := hget i h1 h2
-    exact ⟨this.1, this.2.1, this.2.2, h.unstored _ (List.getElem_mem _)⟩
+    exact ⟨this.1, this.2.1, this.2.2.1, h.unstored _ (List.getElem_mem _)⟩
   · intro ip hip
     refine ⟨by rw [h.alloc ip, if_pos hip], by rw [h.store ip, if_pos hip], ?_⟩
     intro hf; exact ((h.free ip).mp hf).2 hip
@@ -423,7 +424,7 @@ theorem multi_alloc_success' {s : State} {key subnet : String} {ranges : List (L
     refine ⟨by rw [h.alloc ip, if_neg hip], by rw [h.store ip, if_neg hip], ?_⟩
     rw [h.free ip]
     exact ⟨fun x => x.1, fun x => ⟨x, hip⟩⟩
-  · apply byKeyAndRanges_after hr hlen (fun i h1 h2 => (hget i h1 h2).1) hdis
+  · apply byKeyAndRanges_after hr hlen (fun i h1 h2 => by rw [h.pools]; exact (hget i h1 h2).2.2.2) hdis
     intro i hi x hx
     have hal := h.alloc x
     by_cases hin : x ∈ o.ips
